@@ -85,9 +85,10 @@ def init_cases(draw):
     return c
 
 
-def _stats_uniform(name, d, lo, hi, ctx):
+def _stats_uniform(name, d, lo, hi, ctx, dtype=np.float32):
     n = d.size
-    eps = 4 * np.finfo(d.dtype).eps * max(abs(lo), abs(hi), 1e-30)
+    # samples are stored in the tensor's dtype: a bound may be hit after rounding to that dtype
+    eps = 4 * float(np.finfo(dtype).eps) * max(abs(lo), abs(hi), 1e-30)
     if d.min() < lo - eps or d.max() > hi + eps:
         raise Violation("bound", f"{name}: samples outside the documented bounds [{lo}, {hi}]: min {d.min()} max {d.max()}; {ctx}", region=name)
     w = hi - lo
@@ -151,7 +152,7 @@ def check_init(c, rec):
     d = np.asarray(t.data, dtype=np.float64)
     nt = False
     if name == "uniform_":
-        _stats_uniform(name, d, lo, hi, ctx)
+        _stats_uniform(name, d, lo, hi, ctx, dt)
         nt = not c["defaults"]
     elif name == "normal_":
         _stats_normal(name, d, mu, sd, ctx)
@@ -167,7 +168,7 @@ def check_init(c, rec):
             raise Violation("value", "zeros_: not all zeros", region=name)
     elif name == "xavier_uniform_":
         a_ = gain * math.sqrt(6.0 / (fan_in + fan_out))
-        _stats_uniform(name, d, -a_, a_, ctx + f" fan_in={fan_in} fan_out={fan_out} a={a_}")
+        _stats_uniform(name, d, -a_, a_, ctx + f" fan_in={fan_in} fan_out={fan_out} a={a_}", dt)
         nt = fan_in != fan_out and gain != 1.0
     elif name == "xavier_normal_":
         sd_ = gain * math.sqrt(2.0 / (fan_in + fan_out))
@@ -175,7 +176,7 @@ def check_init(c, rec):
         nt = fan_in != fan_out and gain != 1.0
     elif name == "kaiming_uniform_":
         b_ = gain * math.sqrt(3.0 / fan)
-        _stats_uniform(name, d, -b_, b_, ctx + f" fan={fan} gain={gain} bound={b_}")
+        _stats_uniform(name, d, -b_, b_, ctx + f" fan={fan} gain={gain} bound={b_}", dt)
         nt = fan_in != fan_out and (mode != "fan_in" or nl != "leaky_relu" or a != 0)
     elif name == "kaiming_normal_":
         sd_ = gain / math.sqrt(fan)
@@ -260,7 +261,7 @@ def check_layer(c, rec):
         bb = np.asarray(m.bias.data, dtype=np.float64)
         if bb.shape != (c["o"],):
             raise Violation("layer_param", f"{c['kind']} bias shape {bb.shape}")
-        if np.abs(bb).max() > b * (1 + 1e-6):
+        if np.abs(bb).max() > b * (1 + 4 * float(np.finfo(np.float32).eps)):
             raise Violation("bound", f"{c['kind']} bias outside +-1/sqrt(fan_in)={b}: {np.abs(bb).max()}", region=c["kind"] + ".bias")
         if abs(bb.mean()) > 6 * (b / math.sqrt(3)) / math.sqrt(bb.size):
             raise Violation("mean", f"{c['kind']} bias mean {bb.mean()} too far from 0", region=c["kind"] + ".bias")
@@ -269,6 +270,6 @@ def check_layer(c, rec):
 
 
 def subchecks():
-    return [SubCheck("initialisers", check_init, init_cases, quick=120, thorough=1500, shards_quick=4, shards_thorough=8),
+    return [SubCheck("initialisers", check_init, init_cases, quick=500, thorough=1500, shards_quick=6, shards_thorough=8),
             SubCheck("structure", check_struct, struct_cases, quick=200, thorough=1000),
-            SubCheck("layers", check_layer, layer_cases, quick=60, thorough=1000, shards_quick=2, shards_thorough=4)]
+            SubCheck("layers", check_layer, layer_cases, quick=300, thorough=1000, shards_quick=3, shards_thorough=4)]
